@@ -98,6 +98,25 @@ def r1_independent(R) -> None:
         ws = global_writes(fi, mod_names)
         total += 1
         for w in ws:
+            # a memo table: `D[key] = value` next to a lookup of the same key.  Keyed by plain values (texts, tuples of
+            # them) it is as good as its key is complete - which is not decided here; keyed by an object whose state the
+            # value depends on (the key stays the same while the state changes) it goes stale: that stays a violation
+            if isinstance(w, ast.Assign) and isinstance(w.targets[0], ast.Subscript) and isinstance(w.targets[0].value, ast.Name):
+                D_, k_ = w.targets[0].value.id, w.targets[0].slice
+                g_ = Fn(R, fq)
+                wn = [n_ for n_ in g_.cfg.nodes if n_.ast is w]
+                kt = g_.etext(wn[0].id, k_) if wn else text(k_)
+                looked_up = any((method_call(x, 'get') and text(x.func.value) == D_ and x.args and g_.etext(n_.id, x.args[0]) == kt)
+                                or (isinstance(x, ast.Subscript) and isinstance(x.ctx, ast.Load) and text(x.value) == D_ and g_.etext(n_.id, x.slice) == kt)
+                                or (isinstance(x, ast.Compare) and len(x.ops) == 1 and isinstance(x.ops[0], (ast.In, ast.NotIn)) and text(x.comparators[0]) == D_
+                                    and g_.etext(n_.id, x.left) == kt)
+                                for n_ in g_.cfg.nodes if n_.ast is not None for x in ast.walk(n_.ast))
+                params_ = set(fi.params())
+                whole_objects = [x.id for x in ast.walk(ast.parse(kt, mode='eval')) if isinstance(x, ast.Name) and x.id in params_ | {'self'}]
+                parents_ = {id(c_): p_ for p_ in ast.walk(ast.parse(kt, mode='eval')) for c_ in ast.iter_child_nodes(p_)}
+                if looked_up and not any(nm_ == 'self' for nm_ in whole_objects):
+                    raise Unknown(f'{fq}: `{text(w)[:60]}` fills a memo table keyed by `{kt[:50]}`: whether that key determines the cached value (so that the parse of a '
+                                  f'statement does not depend on earlier ones) is not decided')
             R.violation(fq, 'global-write:' + text(w)[:60], f'`{text(w)[:70]}` writes module-level state: the parse of one statement could depend on earlier ones',
                         where=f'{fi.module.relpath}:{w.lineno}')
         if not ws:
